@@ -132,6 +132,41 @@ def two_digit_year_rule(ctx, rule: str) -> None:
                   witness={"version": "v22.05.1001", "pattern": "vGG.0V.BUILD", "date": "2021-06-01"} if fld == "year_g" else None)
 
 
+def calendar_producers_rule(ctx, rule: str) -> None:
+    """cal_info and the re-derivation block of the parser bind every calendar field to the same strftime directive; the
+    quarter is ((month - 1) // 3) + 1; two-digit years are expanded."""
+    prog, cfgs = ctx.prog, ctx.cfgs
+    ci = prog.function("v2version.cal_info")
+    pf = prog.function("v2version.parse_field_values_to_cinfo")
+    ctx.visit(ci.fq, pf.fq)
+    dicts = [n for n in ast.walk(ci.node) if isinstance(n, ast.Dict) and n.keys and all(isinstance(k, ast.Constant) for k in n.keys)]
+    ctx.require(len(dicts) == 1, "cal_info: field dict not found")
+    prod1: T.Dict[str, T.Optional[str]] = {}
+    for k, v in zip(dicts[0].keys, dicts[0].values):
+        prod1[k.value] = _directive(v, ci.params[0])
+    prod2: T.Dict[str, T.Optional[str]] = {}
+    blocks = [n for n in walk_no_nested(pf.node) if isinstance(n, ast.If) and unparse(n.test) == "date"]
+    ctx.require(len(blocks) == 1, "parse_field_values_to_cinfo: `if date:` derivation block not found")
+    for st in blocks[0].body:
+        if isinstance(st, ast.Assign) and isinstance(st.targets[0], ast.Name):
+            prod2[st.targets[0].id] = _directive(st.value, "date")
+    want = {"year_y": "Y", "year_g": "G", "month": "m", "dom": "d", "doy": "j", "week_w": "W", "week_u": "U", "week_v": "V"}
+    ctx.floor(rule, "calendar fields derived by the parser block", len(prod2), 8)
+    for f, d in want.items():
+        a, b = prod1.get(f), prod2.get(f)
+        ctx.check(rule, a == d and b == d, f"field {f}: cal_info and the parser both use %{d}",
+                  f"v2version: calendar field '{f}' is bound to different sources in cal_info ({a}) and the parser ({b}); expected %{d}",
+                  f"cal_info: {a}, parser: {b}", loc=ci.loc(), witness={"field": f, "cal_info": a, "parser": b, "expected": d})
+    two_digit_year_rule(ctx, rule)
+    q = dict(zip([k.value for k in dicts[0].keys], dicts[0].values)).get("quarter")
+    from sa import formats as _fm
+    qt = _fm.month_table(prog, ci, q, ci.params[0]) if q is not None else None
+    ctx.check(rule, qt == [1, 1, 1, 2, 2, 2, 3, 3, 3, 4, 4, 4], f"cal_info: quarter of month 1..12 is {qt}",
+              "v2version.cal_info: the quarter is not ((month - 1) // 3) + 1",
+              f"`{unparse(q) if q is not None else None}` gives {qt} for the months 1..12 (March, June, September belong to quarters 1, 2, 3; December to 4)", loc=ci.loc(q) if q is not None else ci.loc(),
+              witness={"month": next((m + 1 for m in range(12) if qt and qt[m] != m // 3 + 1), None)} if qt else None)
+
+
 def run(ctx) -> None:
     prog, cfgs = ctx.prog, ctx.cfgs
     ctx.rule("R1", "guard lists == parts of the year/week fields; returns False iff (Y with V) or (G with W/U)")
@@ -242,30 +277,7 @@ def run(ctx) -> None:
     shapes.check_passthrough(ctx, "R2", pcfg_fn.fq, val.fq, {"version_pattern": "version_pattern", "is_new_pattern": "is_new_pattern"})
 
     # ---------------------------------------------------------------- R3
-    ci = prog.function("v2version.cal_info")
-    pf = prog.function("v2version.parse_field_values_to_cinfo")
-    ctx.visit(ci.fq, pf.fq)
-    dicts = [n for n in ast.walk(ci.node) if isinstance(n, ast.Dict) and n.keys and all(isinstance(k, ast.Constant) for k in n.keys)]
-    ctx.require(len(dicts) == 1, "cal_info: field dict not found")
-    prod1: T.Dict[str, T.Optional[str]] = {}
-    for k, v in zip(dicts[0].keys, dicts[0].values):
-        prod1[k.value] = _directive(v, ci.params[0])
-    prod2: T.Dict[str, T.Optional[str]] = {}
-    blocks = [n for n in walk_no_nested(pf.node) if isinstance(n, ast.If) and unparse(n.test) == "date"]
-    ctx.require(len(blocks) == 1, "parse_field_values_to_cinfo: `if date:` derivation block not found")
-    for st in blocks[0].body:
-        if isinstance(st, ast.Assign) and isinstance(st.targets[0], ast.Name):
-            prod2[st.targets[0].id] = _directive(st.value, "date")
-    want = {"year_y": "Y", "year_g": "G", "month": "m", "dom": "d", "doy": "j", "week_w": "W", "week_u": "U", "week_v": "V"}
-    ctx.floor("R3", "calendar fields derived by the parser block", len(prod2), 8)
-    for f, d in want.items():
-        a, b = prod1.get(f), prod2.get(f)
-        ctx.check("R3", a == d and b == d, f"field {f}: cal_info and the parser both use %{d}",
-                  f"v2version: calendar field '{f}' is bound to different sources in cal_info ({a}) and the parser ({b}); expected %{d}",
-                  f"cal_info: {a}, parser: {b}", loc=ci.loc(), witness={"field": f, "cal_info": a, "parser": b, "expected": d})
-    two_digit_year_rule(ctx, "R3")
-    q = dict(zip([k.value for k in dicts[0].keys], dicts[0].values)).get("quarter")
-    ctx.check("R3", q is not None and unparse(q) == f"version.quarter_from_month({ci.params[0]}.month)", "cal_info: quarter = quarter_from_month(date.month)", "v2version.cal_info: quarter source changed", "", loc=ci.loc())
+    calendar_producers_rule(ctx, "R3")
 
     # ---------------------------------------------------------------- R4
     gt = prog.function("v2version._is_cal_gt")
